@@ -1,6 +1,7 @@
 package main
 
 import (
+	"os"
 	"strconv"
 	"fmt"
 	"go/constant"
@@ -293,6 +294,9 @@ func (g *Gen) assumeComp(st *State, x Term, c Comp) {
 			g.assumeOld(st, x)
 		}
 	case "bbase":
+		if os.Getenv("GOVC_BBASE_SIGN") != "" {
+			g.assume(Term{app("<=", "0", x.S), SBool})
+		}
 		if st != nil {
 			g.assumeOld(st, x)
 		}
@@ -1092,6 +1096,9 @@ func (g *Gen) noteLoaded(v Val) {
 			g.assume(Term{app("<=", "0", v.C[i].S), SBool})
 			g.assumeOld(g.st, v.C[i])
 		case "bbase":
+			if os.Getenv("GOVC_BBASE_SIGN") != "" {
+				g.assume(Term{app("<=", "0", v.C[i].S), SBool})
+			}
 			g.assumeOld(g.st, v.C[i])
 		case "strbase":
 			g.assume(Term{app("<=", v.C[i].S, "0"), SBool})
